@@ -26,6 +26,7 @@ import (
 	"sync/atomic"
 
 	grpcmw "goa.design/goa/v3/grpc/middleware"
+	goahttp "goa.design/goa/v3/http"
 	httpmw "goa.design/goa/v3/http/middleware"
 	"goa.design/goa/v3/middleware"
 	"google.golang.org/grpc"
@@ -1220,7 +1221,7 @@ func genChains(rng *vh.RNG, tier string) []ChainCase {
 // ================================================================ capture
 
 type Ev struct {
-	K string `json:"k"` // wh | w | f
+	K string `json:"k"` // wh | w | f | cp (io.Copy) | ws (io.WriteString) | cf (ResponseController.Flush)
 	N int    `json:"n,omitempty"`
 }
 
@@ -1234,53 +1235,67 @@ type CaptureCase struct {
 type CaptureObs struct {
 	Status, Bytes       int    // ResponseCapture.StatusCode / ContentLength
 	SentStatus, SentLen int    // recorder Code / body length, or what an HTTP client received
-	Returned            []int  // what the writer underneath returned for every Write
+	Returned            []int  // what every body event (w, cp, ws) returned
 	Panic               string `json:",omitempty"`
 }
 
-// spy sits between the ResponseCapture and the real writer and notes what every
-// Write returned; with a budget it accepts only that many bytes in total.
-type spy struct {
+// shortWriter accepts only budget bytes in total; it exposes Write and Flush only.
+type shortWriter struct {
 	http.ResponseWriter
-	budget   int
-	returned []int
+	budget int
 }
 
-func (s *spy) Write(b []byte) (int, error) {
+func (s *shortWriter) Write(b []byte) (int, error) {
 	var err error
-	if s.budget >= 0 && len(b) > s.budget {
+	if len(b) > s.budget {
 		b, err = b[:s.budget], io.ErrShortWrite
 	}
 	n, werr := s.ResponseWriter.Write(b)
-	if s.budget >= 0 {
-		s.budget -= n
-	}
-	s.returned = append(s.returned, n)
+	s.budget -= n
 	if werr != nil {
 		err = werr
 	}
 	return n, err
 }
 
-func (s *spy) Flush() {
+func (s *shortWriter) Flush() {
 	if f, ok := s.ResponseWriter.(http.Flusher); ok {
 		f.Flush()
 	}
 }
 
-func play(w http.ResponseWriter, evs []Ev) {
+// plainReader hides every optional interface of the reader (no WriteTo), so that
+// io.Copy has to go through the destination: ReadFrom if it has one, else Write.
+type plainReader struct{ r io.Reader }
+
+func (p plainReader) Read(b []byte) (int, error) { return p.r.Read(b) }
+
+// play drives the writer the way handlers do, through every route to the
+// underlying writer: the ResponseWriter methods, io.Copy, io.WriteString and a
+// ResponseController. It returns what every body event returned.
+func play(w http.ResponseWriter, evs []Ev) (returned []int) {
 	for _, e := range evs {
 		switch e.K {
 		case "wh":
 			w.WriteHeader(e.N)
 		case "w":
-			_, _ = w.Write([]byte(strings.Repeat("x", e.N)))
+			n, _ := w.Write([]byte(strings.Repeat("x", e.N)))
+			returned = append(returned, n)
+		case "cp":
+			n, _ := io.Copy(w, plainReader{strings.NewReader(strings.Repeat("c", e.N))})
+			returned = append(returned, int(n))
+		case "ws":
+			n, _ := io.WriteString(w, strings.Repeat("s", e.N))
+			returned = append(returned, n)
 		case "f":
 			if f, ok := w.(http.Flusher); ok {
 				f.Flush()
 			}
+		case "cf":
+			_ = http.NewResponseController(w).Flush()
 		}
 	}
+	return
 }
 
 func runCapture(c CaptureCase) (o CaptureObs) {
@@ -1290,12 +1305,11 @@ func runCapture(c CaptureCase) (o CaptureObs) {
 		}
 	}()
 	if c.Real {
-		var sp *spy
 		var rc *httpmw.ResponseCapture
+		var returned []int
 		srv := httptest.NewUnstartedServer(http.HandlerFunc(func(w http.ResponseWriter, r *http.Request) {
-			sp = &spy{ResponseWriter: w, budget: -1}
-			rc = httpmw.CaptureResponse(sp)
-			play(rc, c.Events)
+			rc = httpmw.CaptureResponse(w) // the real writer, with all its optional interfaces
+			returned = play(rc, c.Events)
 		}))
 		srv.Config.ErrorLog = log.New(io.Discard, "", 0)
 		srv.Start()
@@ -1307,19 +1321,31 @@ func runCapture(c CaptureCase) (o CaptureObs) {
 		}
 		body, _ := io.ReadAll(resp.Body)
 		resp.Body.Close()
-		o = CaptureObs{Status: rc.StatusCode, Bytes: rc.ContentLength, SentStatus: resp.StatusCode, SentLen: len(body), Returned: sp.returned}
-		return
+		return CaptureObs{Status: rc.StatusCode, Bytes: rc.ContentLength, SentStatus: resp.StatusCode, SentLen: len(body), Returned: returned}
 	}
 	rec := httptest.NewRecorder()
-	sp := &spy{ResponseWriter: rec, budget: c.Budget}
-	rc := httpmw.CaptureResponse(sp)
-	play(rc, c.Events)
-	return CaptureObs{Status: rc.StatusCode, Bytes: rc.ContentLength, SentStatus: rec.Code, SentLen: rec.Body.Len(), Returned: sp.returned}
+	var under http.ResponseWriter = rec
+	if c.Budget >= 0 {
+		under = &shortWriter{ResponseWriter: rec, budget: c.Budget}
+	}
+	rc := httpmw.CaptureResponse(under)
+	returned := play(rc, c.Events)
+	return CaptureObs{Status: rc.StatusCode, Bytes: rc.ContentLength, SentStatus: rec.Code, SentLen: rec.Body.Len(), Returned: returned}
+}
+
+// touches: some call reached the writer. io.Copy from an empty reader makes none.
+func touches(evs []Ev) bool {
+	for _, e := range evs {
+		if !(e.K == "cp" && e.N == 0) {
+			return true
+		}
+	}
+	return false
 }
 
 func disciplined(evs []Ev) bool {
 	for i, e := range evs {
-		if i == 0 && e.K == "f" {
+		if i == 0 && (e.K == "f" || e.K == "cf") {
 			return false
 		}
 		if i > 0 && e.K == "wh" {
@@ -1341,8 +1367,8 @@ func captureOracle(c CaptureCase, o CaptureObs, res *vh.Result) {
 		fail("capture-bytes-differ", fmt.Sprintf("ContentLength = %d, %d bytes were written", o.Bytes, o.SentLen))
 	}
 	want := o.SentStatus
-	if len(c.Events) == 0 {
-		want = 0
+	if !touches(c.Events) {
+		want = 0 // nothing was written through the writer by the handler
 	}
 	if o.Status != want {
 		fail("capture-status-differs", fmt.Sprintf("StatusCode = %d, the status actually written is %d", o.Status, want))
@@ -1352,19 +1378,31 @@ func captureOracle(c CaptureCase, o CaptureObs, res *vh.Result) {
 func coqCapture(i int, c CaptureCase, o CaptureObs) string {
 	var es []string
 	w := 0
+	body := func(name string, n int) {
+		if w < len(o.Returned) {
+			n = o.Returned[w]
+		}
+		w++
+		es = append(es, fmt.Sprintf("%s %d", name, n))
+	}
 	for _, e := range c.Events {
 		switch e.K {
 		case "wh":
 			es = append(es, "WriteHeader "+cz(e.N))
 		case "w":
-			n := e.N
-			if w < len(o.Returned) {
-				n = o.Returned[w]
+			body("Write", e.N)
+		case "cp":
+			if e.N == 0 {
+				w++ // io.Copy from an empty reader never reaches the writer: no event
+				continue
 			}
-			w++
-			es = append(es, fmt.Sprintf("Write %d", n))
+			body("Copy", e.N)
+		case "ws":
+			body("WriteString", e.N)
 		case "f":
 			es = append(es, "Flush")
+		case "cf":
+			es = append(es, "CtlFlush")
 		}
 	}
 	return fmt.Sprintf("(%d, [%s], (%s, %d), (%s, %d))", i, strings.Join(es, "; "), cz(o.Status), o.Bytes, cz(o.SentStatus), o.SentLen)
@@ -1384,6 +1422,14 @@ var captureWitnesses = [][]Ev{
 	{{K: "f"}, {K: "w", N: 2}},             // agrees: the write fills in the 200
 	{{K: "f"}, {K: "wh", N: 200}},          // agrees by coincidence
 	{{K: "wh", N: 404}, {K: "wh", N: 404}}, // agrees: same code twice
+	{{K: "cp", N: 5}},                      // io.Copy as the first thing the handler does
+	{{K: "ws", N: 5}},                      // io.WriteString first
+	{{K: "cf"}},                            // ResponseController flush first
+	{{K: "cp", N: 0}},
+	{{K: "cp", N: 70000}}, // more than io.Copy's buffer
+	{{K: "cp", N: 4}, {K: "wh", N: 500}},
+	{{K: "cf"}, {K: "wh", N: 404}, {K: "cp", N: 3}},
+	{{K: "wh", N: 201}, {K: "cp", N: 9}, {K: "ws", N: 2}, {K: "cf"}, {K: "w", N: 1}},
 }
 
 func genCapture(rng *vh.RNG, tier string) []CaptureCase {
@@ -1398,7 +1444,7 @@ func genCapture(rng *vh.RNG, tier string) []CaptureCase {
 	for _, w := range captureWitnesses {
 		cases = append(cases, CaptureCase{Stream: "capture", Events: w, Budget: -1}, CaptureCase{Stream: "capture", Events: w, Budget: -1, Real: true})
 	}
-	n, nreal := 1200, 40
+	n, nreal := 1200, 120
 	if tier == "thorough" {
 		n, nreal = 10000, 400
 	}
@@ -1412,14 +1458,14 @@ func genCapture(rng *vh.RNG, tier string) []CaptureCase {
 			if rng.Chance(3, 5) {
 				c.Events = append(c.Events, Ev{K: "wh", N: vh.Pick(rng, codes)})
 			} else if rng.Chance(4, 5) {
-				c.Events = append(c.Events, Ev{K: "w", N: rng.Intn(30)})
+				c.Events = append(c.Events, Ev{K: vh.Pick(rng, []string{"w", "w", "cp", "ws"}), N: rng.Intn(30)})
 			}
 			if len(c.Events) > 0 {
 				for k := rng.Intn(6); k > 0; k-- {
 					if rng.Chance(1, 4) {
-						c.Events = append(c.Events, Ev{K: "f"})
+						c.Events = append(c.Events, Ev{K: vh.Pick(rng, []string{"f", "cf"})})
 					} else {
-						c.Events = append(c.Events, Ev{K: "w", N: vh.Pick(rng, []int{0, 1, 2, 7, 16, 64, rng.Intn(200)})})
+						c.Events = append(c.Events, Ev{K: vh.Pick(rng, []string{"w", "w", "cp", "ws"}), N: vh.Pick(rng, []int{0, 1, 2, 7, 16, 64, rng.Intn(200)})})
 					}
 				}
 			}
@@ -1430,13 +1476,416 @@ func genCapture(rng *vh.RNG, tier string) []CaptureCase {
 				case 0, 1:
 					c.Events = append(c.Events, Ev{K: "wh", N: vh.Pick(rng, codes)})
 				case 2:
-					c.Events = append(c.Events, Ev{K: "f"})
+					c.Events = append(c.Events, Ev{K: vh.Pick(rng, []string{"f", "cf"})})
 				default:
-					c.Events = append(c.Events, Ev{K: "w", N: vh.Pick(rng, []int{0, 1, 3, 16, rng.Intn(100)})})
+					c.Events = append(c.Events, Ev{K: vh.Pick(rng, []string{"w", "cp", "ws"}), N: vh.Pick(rng, []int{0, 1, 3, 16, rng.Intn(100)})})
 				}
 			}
 		}
 		cases = append(cases, c)
+	}
+	return cases
+}
+
+// ================================================================ stacks
+
+// A stack is a server's middleware chain composed the way servers compose it
+// (http: nested handlers; grpc: ChainUnaryInterceptor / ChainStreamInterceptor
+// order, first = outermost). Besides request-id and trace it contains layers that
+// must be transparent for the identifiers, in every position.
+type Layer struct {
+	K     string   `json:"k"` // rid | trace | log | logctx | cancel | debug | populate | keyvals | redirect
+	Rid   []RidOpt `json:"rid,omitempty"`
+	Trace []TOpt   `json:"trace,omitempty"`
+}
+
+type StackCase struct {
+	Stream   string  `json:"stream"`
+	Kind     string  `json:"kind"`
+	Layers   []Layer `json:"layers"`
+	Headers  []HV    `json:"headers,omitempty"`
+	Trace    []B     `json:"trace,omitempty"`
+	Parent   []B     `json:"parent,omitempty"`
+	Path     string  `json:"path"`
+	Seed     int64   `json:"seed"`
+	NewTrace B       `json:"new_trace"`
+	NewSpan  B       `json:"new_span"`
+	Next     string  `json:"next"` // transport of the downstream call made from the handler
+	Wrap     bool    `json:"wrap,omitempty"`
+}
+
+type StackObs struct {
+	Called    bool
+	Rid       *B
+	MD        []B
+	Ctx       Ctx3
+	FwdTrace  []B // what the downstream server received from the traced client
+	FwdParent []B
+	Fwd       bool
+	Draw      int
+	Matches   [][]bool // per trace layer
+	Panic     string   `json:",omitempty"`
+}
+
+var transparentLayers = map[string][]string{
+	"http":   {"log", "logctx", "debug", "populate", "keyvals", "redirect"},
+	"unary":  {"log", "logctx"},
+	"stream": {"log", "logctx", "cancel"},
+}
+
+func chainUnary(ics []grpc.UnaryServerInterceptor, info *grpc.UnaryServerInfo, final grpc.UnaryHandler) grpc.UnaryHandler {
+	h := final
+	for i := len(ics) - 1; i >= 0; i-- {
+		ic, next := ics[i], h
+		h = func(ctx context.Context, req any) (any, error) { return ic(ctx, req, info, next) }
+	}
+	return h
+}
+
+func chainStream(ics []grpc.StreamServerInterceptor, info *grpc.StreamServerInfo, final grpc.StreamHandler) grpc.StreamHandler {
+	h := final
+	for i := len(ics) - 1; i >= 0; i-- {
+		ic, next := ics[i], h
+		h = func(srv any, ss grpc.ServerStream) error { return ic(srv, ss, info, next) }
+	}
+	return h
+}
+
+// callDownstream calls the next service from inside a handler through the traced
+// client of the given transport and reports the trace headers that arrive there.
+func callDownstream(ctx context.Context, next, path string) (trace, parent []string) {
+	switch next {
+	case "http":
+		req, _ := http.NewRequestWithContext(ctx, "GET", "http://next"+path, nil)
+		_, _ = httpmw.WrapDoer(wireDoer(func(r *http.Request) (*http.Response, error) {
+			trace, parent = r.Header[hTrace], r.Header[hParent]
+			return &http.Response{StatusCode: 200, Body: io.NopCloser(strings.NewReader(""))}, nil
+		})).Do(req)
+	case "unary":
+		_ = grpcmw.UnaryClientTrace()(ctx, path, nil, nil, nil,
+			func(c2 context.Context, method string, req, reply any, cc *grpc.ClientConn, opts ...grpc.CallOption) error {
+				m, _ := metadata.FromOutgoingContext(c2)
+				trace, parent = m[grpcmw.TraceIDMetadataKey], m[grpcmw.ParentSpanIDMetadataKey]
+				return nil
+			})
+	default:
+		_, _ = grpcmw.StreamClientTrace()(ctx, &grpc.StreamDesc{}, nil, path,
+			func(c2 context.Context, desc *grpc.StreamDesc, cc *grpc.ClientConn, method string, opts ...grpc.CallOption) (grpc.ClientStream, error) {
+				m, _ := metadata.FromOutgoingContext(c2)
+				trace, parent = m[grpcmw.TraceIDMetadataKey], m[grpcmw.ParentSpanIDMetadataKey]
+				return nil, nil
+			})
+	}
+	return
+}
+
+func runStack(c StackCase) (o StackObs) {
+	defer func() {
+		if r := recover(); r != nil {
+			o.Panic = fmt.Sprint(r)
+		}
+	}()
+	g := &idGen{trace: string(c.NewTrace), span: string(c.NewSpan)}
+	ml := &memLogger{}
+	cctx, stop := context.WithCancel(context.Background())
+	defer stop() // releases the canceler's goroutine
+	adaptive := false
+	see := func(ctx context.Context) {
+		o.Called = true
+		if v := ctx.Value(middleware.RequestIDKey); v != nil {
+			o.Rid = bp(strOrEmpty(v))
+		}
+		if md, ok := metadata.FromIncomingContext(ctx); ok {
+			o.MD = toB(append([]string{}, md[grpcmw.RequestIDMetadataKey]...))
+		}
+		o.Ctx = readCtx(ctx)
+		t, p := callDownstream(ctx, c.Next, "/svc.Next/Call")
+		o.FwdTrace, o.FwdParent, o.Fwd = toB(t), toB(p), true
+	}
+	var hs []func(http.Handler) http.Handler
+	var us []grpc.UnaryServerInterceptor
+	var ss []grpc.StreamServerInterceptor
+	for _, l := range c.Layers {
+		var ro []middleware.RequestIDOption
+		var to []middleware.TraceOption
+		if l.K == "rid" {
+			ro = RidCase{Kind: c.Kind, Opts: l.Rid, Wrap: c.Wrap}.options()
+		}
+		if l.K == "trace" {
+			var ad bool
+			var pats []*regexp.Regexp
+			to, ad, pats = traceOptions(l.Trace, g, c.Kind, c.Wrap)
+			adaptive = adaptive || ad
+			ms := make([]bool, len(pats))
+			for i, re := range pats {
+				ms[i] = re.MatchString(matchTarget(c.Kind, c.Path))
+			}
+			o.Matches = append(o.Matches, ms)
+		}
+		logFromCtx := func(context.Context) middleware.Logger { return ml }
+		switch c.Kind + "/" + l.K {
+		case "http/rid":
+			hs = append(hs, httpmw.RequestID(ro...))
+		case "http/trace":
+			hs = append(hs, httpmw.Trace(to...))
+		case "http/log":
+			hs = append(hs, httpmw.Log(ml))
+		case "http/logctx":
+			hs = append(hs, httpmw.LogContext(logFromCtx))
+		case "http/debug":
+			hs = append(hs, httpmw.Debug(goahttp.NewMuxer(), io.Discard))
+		case "http/populate":
+			hs = append(hs, httpmw.PopulateRequestContext())
+		case "http/keyvals":
+			hs = append(hs, httpmw.RequestContextKeyVals("some-key", "some-value"))
+		case "http/redirect":
+			hs = append(hs, httpmw.SmartRedirectSlashes)
+		case "unary/rid":
+			us = append(us, grpcmw.UnaryRequestID(ro...))
+		case "unary/trace":
+			us = append(us, grpcmw.UnaryServerTrace(to...))
+		case "unary/log":
+			us = append(us, grpcmw.UnaryServerLog(ml))
+		case "unary/logctx":
+			us = append(us, grpcmw.UnaryServerLogContext(logFromCtx))
+		case "stream/rid":
+			ss = append(ss, grpcmw.StreamRequestID(ro...))
+		case "stream/trace":
+			ss = append(ss, grpcmw.StreamServerTrace(to...))
+		case "stream/log":
+			ss = append(ss, grpcmw.StreamServerLog(ml))
+		case "stream/logctx":
+			ss = append(ss, grpcmw.StreamServerLogContext(logFromCtx))
+		case "stream/cancel":
+			ss = append(ss, grpcmw.StreamCanceler(cctx))
+		default:
+			panic("layer " + l.K + " does not exist for " + c.Kind)
+		}
+	}
+	n := 100
+	if adaptive {
+		n = 10000
+	}
+	o.Draw, _ = seedDraw(c.Seed, n)
+	switch c.Kind {
+	case "http":
+		var h http.Handler = http.HandlerFunc(func(w http.ResponseWriter, r *http.Request) { see(r.Context()); _, _ = w.Write([]byte("ok")) })
+		for i := len(hs) - 1; i >= 0; i-- {
+			h = hs[i](h)
+		}
+		r := httptest.NewRequest("GET", "http://svc"+c.Path, nil)
+		for _, hv := range c.Headers {
+			r.Header[http.CanonicalHeaderKey(hv.Name)] = bs(hv.Values)
+		}
+		if c.Trace != nil {
+			r.Header[hTrace] = bs(c.Trace)
+		}
+		if c.Parent != nil {
+			r.Header[hParent] = bs(c.Parent)
+		}
+		h.ServeHTTP(httptest.NewRecorder(), r)
+	default:
+		m := metadata.MD{}
+		for _, hv := range c.Headers {
+			m[strings.ToLower(hv.Name)] = bs(hv.Values)
+		}
+		if c.Trace != nil {
+			m[grpcmw.TraceIDMetadataKey] = bs(c.Trace)
+		}
+		if c.Parent != nil {
+			m[grpcmw.ParentSpanIDMetadataKey] = bs(c.Parent)
+		}
+		ctx := metadata.NewIncomingContext(context.Background(), m)
+		if c.Kind == "unary" {
+			_, _ = chainUnary(us, &grpc.UnaryServerInfo{FullMethod: c.Path}, func(ctx context.Context, req any) (any, error) { see(ctx); return nil, nil })(ctx, nil)
+		} else {
+			_ = chainStream(ss, &grpc.StreamServerInfo{FullMethod: c.Path}, func(srv any, st grpc.ServerStream) error { see(st.Context()); return nil })(nil, &fakeServerStream{ctx: ctx})
+		}
+	}
+	return
+}
+
+// stackOracle: below the request-id layer the handler has a non-empty id (the
+// truncated inbound one when trusted); below the trace layer a request that came
+// with a trace id runs under it, under a fresh span, with its caller's span as
+// parent, and the traced client called from the handler forwards trace and span.
+func stackOracle(c StackCase, o StackObs, res *vh.Result) {
+	fail := func(sig, what string) { record(res, sig, what, c) }
+	if o.Panic != "" {
+		fail("stack-panic", "middleware stack: "+o.Panic)
+		return
+	}
+	if !o.Called {
+		fail("stack-handler-not-called", "the handler below the middleware stack was not called")
+		return
+	}
+	names := make([]string, len(c.Layers))
+	for i, l := range c.Layers {
+		names[i] = l.K
+	}
+	order := strings.Join(names, " > ")
+	for _, l := range c.Layers {
+		switch l.K {
+		case "rid":
+			if o.Rid == nil || *o.Rid == "" {
+				fail("stack-request-id-lost", "stack "+order+": the handler's context carries no request id")
+				break
+			}
+			rc := RidCase{Kind: c.Kind, Opts: l.Rid, Headers: c.Headers}
+			use, header, limit := rc.configured()
+			if in := rc.inboundValue(header); use && in != "" {
+				want := in
+				if limit > 0 && len(in) > limit {
+					want = in[:limit]
+				}
+				if string(*o.Rid) != want {
+					fail("stack-request-id-lost", fmt.Sprintf("stack %s: trusted inbound id %q (limit %d), handler sees %q", order, in, limit, *o.Rid))
+				}
+			}
+			if c.Kind != "http" && (len(o.MD) != 1 || o.MD[0] != *o.Rid) {
+				fail("grpc-request-id-metadata-not-set", fmt.Sprintf("stack %s: incoming metadata x-request-id = %q, context id = %q", order, bs(o.MD), *o.Rid))
+			}
+		case "trace":
+			inT, inP := first(c.Trace), first(c.Parent)
+			if inT == "" {
+				break
+			}
+			if deref(o.Ctx.Trace) != inT || o.Ctx.Span == nil || *o.Ctx.Span != c.NewSpan || (inP != "" && deref(o.Ctx.Parent) != inP) {
+				fail("stack-trace-context-lost", fmt.Sprintf("stack %s: request came with trace %q parent %q, handler context has trace %q span %q parent %q (fresh span %q)",
+					order, inT, inP, deref(o.Ctx.Trace), deref(o.Ctx.Span), deref(o.Ctx.Parent), c.NewSpan))
+				break
+			}
+			if !o.Fwd || len(o.FwdTrace) != 1 || string(o.FwdTrace[0]) != inT || len(o.FwdParent) != 1 || o.FwdParent[0] != c.NewSpan {
+				fail("stack-client-did-not-forward", fmt.Sprintf("stack %s: traced %s client called from the handler forwarded trace %q parent %q, expected %q / %q",
+					order, c.Next, bs(o.FwdTrace), bs(o.FwdParent), inT, c.NewSpan))
+			}
+		}
+	}
+}
+
+func coqStack(i int, c StackCase, o StackObs) string {
+	ls := make([]string, len(c.Layers))
+	nt := 0
+	for j, l := range c.Layers {
+		switch l.K {
+		case "rid":
+			fresh := ""
+			if o.Rid != nil {
+				fresh = string(*o.Rid)
+			}
+			ls[j] = fmt.Sprintf("LRid %s %s", coqRidOpts(l.Rid), cbytes(fresh))
+		case "trace":
+			var ms []bool
+			if nt < len(o.Matches) {
+				ms = o.Matches[nt]
+			}
+			nt++
+			q := TReq{Path: c.Path, Trace: c.Trace, Parent: c.Parent, NewTrace: c.NewTrace, NewSpan: c.NewSpan}
+			ls[j] = fmt.Sprintf("LTrace %s %s", coqTOpts(l.Trace), coqReq(q, c.Kind, ms, o.Draw))
+		default:
+			ls[j] = "LTransparent"
+		}
+	}
+	rid := "None"
+	if o.Rid != nil {
+		rid = "(Some " + cbytes(string(*o.Rid)) + ")"
+	}
+	fwd := "None"
+	if o.Fwd {
+		fwd = fmt.Sprintf("(Some (%s, %s))", clist(bs(o.FwdTrace)), clist(bs(o.FwdParent)))
+	}
+	return fmt.Sprintf("(%d, %s, [%s], %s, (%s, %s, %s, %s))", i, ckind(c.Kind), strings.Join(ls, "; "), coqHeaders(c.Headers),
+		rid, clist(bs(o.MD)), coqCtx(o.Ctx), fwd)
+}
+
+func permutations(xs []string) [][]string {
+	if len(xs) <= 1 {
+		return [][]string{append([]string{}, xs...)}
+	}
+	var out [][]string
+	for i := range xs {
+		rest := append(append([]string{}, xs[:i]...), xs[i+1:]...)
+		for _, p := range permutations(rest) {
+			out = append(out, append([]string{xs[i]}, p...))
+		}
+	}
+	return out
+}
+
+func genStacks(rng *vh.RNG, tier string) []StackCase {
+	var cases []StackCase
+	ridSets := [][]RidOpt{{{K: "use", Flag: true}}, {{K: "use", Flag: true}, {K: "limit", Limit: 5}}, {{K: "header", Name: "Custom-Id"}}, {}, {{K: "use", Flag: false}}}
+	mk := func(kind string, order []string, idx int) StackCase {
+		c := StackCase{Stream: "stack", Kind: kind, Path: vh.Pick(rng, tracePaths), Seed: int64(rng.Next() >> 1),
+			NewTrace: B(fmt.Sprintf("Tk%d", idx)), NewSpan: B(fmt.Sprintf("Sk%d", idx)), Next: vh.Pick(rng, kinds), Wrap: rng.Bool()}
+		for _, k := range order {
+			l := Layer{K: k}
+			switch k {
+			case "rid":
+				l.Rid = vh.Pick(rng, ridSets)
+			case "trace":
+				l.Trace, _, _ = genTOpts(rng, false)
+			}
+			c.Layers = append(c.Layers, l)
+		}
+		if rng.Chance(4, 5) {
+			v := []B{B(vh.Pick(rng, ridValues))}
+			c.Headers = append(c.Headers, HV{"X-Request-Id", v})
+			if rng.Bool() {
+				c.Headers = append(c.Headers, HV{"Custom-Id", []B{B(vh.Pick(rng, ridValues))}})
+			}
+		}
+		if rng.Chance(2, 3) {
+			c.Trace = []B{B(fmt.Sprintf("tin%d", idx))}
+			if rng.Chance(2, 3) {
+				c.Parent = []B{B(fmt.Sprintf("pin%d", idx))}
+			}
+		}
+		return c
+	}
+	idx := 0
+	// covering part: every transparent layer in every position relative to request-id and trace
+	for _, kind := range kinds {
+		for _, t := range transparentLayers[kind] {
+			for _, order := range permutations([]string{"rid", "trace", t}) {
+				c := mk(kind, order, idx)
+				c.Headers = []HV{{"X-Request-Id", []B{"req-from-caller"}}}
+				c.Trace, c.Parent = []B{B(fmt.Sprintf("tin%d", idx))}, []B{B(fmt.Sprintf("pin%d", idx))}
+				for j := range c.Layers {
+					if c.Layers[j].K == "rid" {
+						c.Layers[j].Rid = []RidOpt{{K: "use", Flag: true}}
+					}
+				}
+				cases = append(cases, c)
+				idx++
+			}
+		}
+		// all transparent layers at once, request-id and trace at both ends
+		all := transparentLayers[kind]
+		cases = append(cases, mk(kind, append(append([]string{"rid", "trace"}, all...), []string{}...), idx), mk(kind, append(append([]string{}, all...), "trace", "rid"), idx+1))
+		idx += 2
+	}
+	n := 300
+	if tier == "thorough" {
+		n = 3000
+	}
+	for ; idx < n; idx++ {
+		kind := vh.Pick(rng, kinds)
+		var order []string
+		if rng.Chance(9, 10) {
+			order = append(order, "rid")
+		}
+		if rng.Chance(9, 10) {
+			order = append(order, "trace")
+		}
+		for k := rng.Intn(4); k > 0; k-- {
+			order = append(order, vh.Pick(rng, transparentLayers[kind]))
+		}
+		for i := len(order) - 1; i > 0; i-- {
+			j := rng.Intn(i + 1)
+			order[i], order[j] = order[j], order[i]
+		}
+		cases = append(cases, mk(kind, order, idx))
 	}
 	return cases
 }
@@ -1481,7 +1930,7 @@ func runLog(c LogCase, res *vh.Result) {
 	opts := c.Rid.options()
 	var seenID any
 	var code, blen int
-	wrote := len(c.Events) > 0
+	wrote := touches(c.Events)
 	switch c.Rid.Kind {
 	case "http":
 		var h http.Handler = http.HandlerFunc(func(w http.ResponseWriter, r *http.Request) {
@@ -1793,6 +2242,7 @@ func main() {
 	var chains []ChainCase
 	var captures []CaptureCase
 	var logs []LogCase
+	var stacks []StackCase
 	table, loops := true, true
 	if *replay != "" {
 		b, err := os.ReadFile(*replay)
@@ -1827,6 +2277,10 @@ func main() {
 			var c CaptureCase
 			_ = json.Unmarshal(rp.Input, &c)
 			captures = append(captures, c)
+		case "stack":
+			var c StackCase
+			_ = json.Unmarshal(rp.Input, &c)
+			stacks = append(stacks, c)
 		case "log":
 			var c LogCase
 			_ = json.Unmarshal(rp.Input, &c)
@@ -1846,6 +2300,7 @@ func main() {
 		traces = genTrace(rng.Fork(), *tier)
 		chains = genChains(rng.Fork(), *tier)
 		captures = genCapture(rng.Fork(), *tier)
+		stacks = genStacks(rng.Fork(), *tier)
 	}
 
 	distinct := vh.Distinct{}
@@ -1965,6 +2420,26 @@ func main() {
 	evals += len(captures)
 	writeLines(*out, "cases_capture.txt", lines)
 
+	lines = nil
+	for i, c := range stacks {
+		o := runStack(c)
+		stackOracle(c, o, res)
+		lines = append(lines, coqStack(i, c, o))
+		cases["stack"] = append(cases["stack"], c)
+		res.Count(fmt.Sprintf("stack_kind=%s", c.Kind))
+		for _, l := range c.Layers {
+			res.Count("stack_layer=" + l.K)
+		}
+		if len(c.Layers) >= 3 {
+			distinct.Add(hashKey(c))
+		}
+		if i%97 == 11 {
+			res.Sample(map[string]any{"case": c, "observed": o}, 10)
+		}
+	}
+	evals += len(stacks)
+	writeLines(*out, "cases_stack.txt", lines)
+
 	// end to end through the Log middlewares (direct oracle only)
 	if *replay == "" {
 		lr := rng.Fork()
@@ -2011,8 +2486,8 @@ func main() {
 
 	res.Evaluations = evals
 	res.Distinct = len(distinct)
-	res.Rule = "request id: kinds {http, grpc unary, grpc stream} x option lists (use on/off, header names incl. case variants and the empty name, limits 0, negative, 1, len-1, len, len+1, huge; later options override earlier ones) x inbound values (absent, empty, short, long, multi-byte, invalid UTF-8, several values, first value empty) x optional id already in the context, every case run twice; trace: sequences of 1-5 requests through one middleware instance (sampling 0..100, default, adaptive below its sample size, 0-2 discard patterns, inbound trace / parent headers absent, empty, single, multiple, stale context values, nil URL), math/rand reseeded per request so the draw is known; chains: depth 1-4 (thorough 1-8) of servers of random transports calling the next through WrapDoer / UnaryClientTrace / StreamClientTrace; capture: writer histories over WriteHeader/Write/Flush in any order (repeated and late WriteHeader calls, Flush first) against httptest.ResponseRecorder (with short writes) and a real net/http server; fixed sampler: every percentage 0..100 x every draw 0..99 run on the real sampler (exhaustive; the quick tier compares the rows around r = p, the extreme draws and percentages 0, 1, 50, 99, 100 with the model, the thorough tier all of them); sampling loops: 0 %, 100 % and default over n requests per transport; log: request-id middleware -> Log middleware -> handler playing a writer history (direct oracle only); concurrent: 8 goroutines x 1500 requests with distinct ids through one middleware instance per transport (direct oracle only). Non-trivial = request-id case with a non-empty inbound value or context id; trace sequence with an inbound trace id, a sampler draw or more than one request; chain of depth >= 2 whose first server is traced; history with at least two events; distinct = distinct inputs among those"
-	res.Extra["streams"] = map[string]int{"rid": len(rids), "trace": len(traces), "chain": len(chains), "capture": len(captures)}
+	res.Rule = "request id: kinds {http, grpc unary, grpc stream} x option lists (use on/off, header names incl. case variants and the empty name, limits 0, negative, 1, len-1, len, len+1, huge; later options override earlier ones) x inbound values (absent, empty, short, long, multi-byte, invalid UTF-8, several values, first value empty) x optional id already in the context, every case run twice; trace: sequences of 1-5 requests through one middleware instance (sampling 0..100, default, adaptive below its sample size, 0-2 discard patterns, inbound trace / parent headers absent, empty, single, multiple, stale context values, nil URL), math/rand reseeded per request so the draw is known; chains: depth 1-4 (thorough 1-8) of servers of random transports calling the next through WrapDoer / UnaryClientTrace / StreamClientTrace; stacks: the middleware chain composed as servers compose it (http nesting; grpc ChainUnaryInterceptor/ChainStreamInterceptor order) with request-id, trace and every transparent layer (Log, LogContext, Debug, PopulateRequestContext, RequestContextKeyVals, SmartRedirectSlashes, StreamCanceler) in every position, the handler reading its context and calling downstream through the traced client; capture: writer histories over WriteHeader/Write/Flush/io.Copy/io.WriteString/ResponseController.Flush in any order (repeated and late WriteHeader calls, Flush first) against httptest.ResponseRecorder (with short writes) and a real net/http server; fixed sampler: every percentage 0..100 x every draw 0..99 run on the real sampler (exhaustive; the quick tier compares the rows around r = p, the extreme draws and percentages 0, 1, 50, 99, 100 with the model, the thorough tier all of them); sampling loops: 0 %, 100 % and default over n requests per transport; log: request-id middleware -> Log middleware -> handler playing a writer history (direct oracle only); concurrent: 8 goroutines x 1500 requests with distinct ids through one middleware instance per transport (direct oracle only). Non-trivial = request-id case with a non-empty inbound value or context id; trace sequence with an inbound trace id, a sampler draw or more than one request; chain of depth >= 2 whose first server is traced; history with at least two events; stack of at least three layers; distinct = distinct inputs among those"
+	res.Extra["streams"] = map[string]int{"rid": len(rids), "trace": len(traces), "chain": len(chains), "capture": len(captures), "stack": len(stacks)}
 	b, _ := json.Marshal(cases)
 	if err := os.WriteFile(filepath.Join(*out, "cases.json"), b, 0o644); err != nil {
 		panic(err)
